@@ -2010,6 +2010,20 @@ pub fn run(cx: &mut Ctx) {
             }
         }
     }
+    // paths whose segments are not UTF-8 (the key holds the raw segments; nothing may go through a text view
+    // of the path): two such paths, such a path and the root path, such a path and its lossy rendering
+    for (pa, pb) in [
+        (vec![vec![0xffu8]], vec![vec![0xfeu8]]),
+        (vec![vec![0xff], b"a".to_vec()], vec![vec![0x80], b"a".to_vec()]),
+        (vec![vec![0xff]], vec![]),
+        (vec![vec![0xc3, 0x28]], vec!["\u{fffd}(".as_bytes().to_vec()]),
+        (vec![b"a".to_vec(), vec![0xff]], vec![b"a".to_vec()]),
+    ] {
+        let sa = ReqShape { path: pa.clone(), ..base.clone() };
+        let sb = ReqShape { path: pb.clone(), ..base.clone() };
+        run_interleavings(cx, &download_script(&sa, 1, &body1, 0, 10), &download_script(&sb, 1, &body2, 0, 40), 48);
+        run_interleavings(cx, &upload_script(&ReqShape { code: 3, ..sa.clone() }, 1, &body1, 0, 10), &upload_script(&ReqShape { code: 3, ..sb.clone() }, 1, &body2, 0, 40), 48);
+    }
     // request codes without a name (0.08 … 0.31), or of another class, are methods of their own too
     for (ca, cb) in [(8u8, 9u8), (8, 31), (10, 1), (31, 7), (0x45, 0x44), (8, 0xA0)] {
         let sa = ReqShape { code: ca, ..base.clone() };
